@@ -79,7 +79,23 @@ func ExtractMatchField(f *of.MatchField) (*rec.Rec, error) {
 		r.SetB("mask", m)
 	}
 	r.Set("_length", uint64(f.Length))
+	if f.ExperimenterID != 0 {
+		r.Set("experimenter", uint64(f.ExperimenterID))
+	}
+	if !f.HasMask && !isNilMsg(f.Mask) { // a mask on a field that says it has none
+		if m, err := payloadBytes(f.Mask, width); err == nil {
+			r.SetB("mask", m)
+		}
+	}
 	return r, nil
+}
+
+func isNilMsg(m util.Message) bool {
+	if m == nil {
+		return true
+	}
+	v := reflect.ValueOf(m)
+	return v.Kind() == reflect.Ptr && v.IsNil()
 }
 
 func ExtractMatch(m *of.Match) (*rec.Rec, error) {
